@@ -193,12 +193,44 @@ pub fn test_tree(c: &TreeCase, ev: &mut Ev, opts: &ModelOpts) -> Result<(), Viol
         ev.samples.push(json!({"program": text, "expect": match &exp { Expect::Ok(i) => format!("value bytes {}", crate::run::hex(&i.code[i.code.len().saturating_sub(8)..], 8)), Expect::Fail{reason,..} => format!("must fail: {}", reason), Expect::Unsure(r) => format!("tolerated: {}", r)}}));
     }
     match chk.eval() {
-        Ok(()) => Ok(()),
+        Ok(()) => {}
         Err(why) => {
             let kind = if why.contains("anic") { "panic" } else if matches!(exp, Expect::Fail { .. }) { "accepted" } else if why.contains("Err(") { "rejected" } else { "wrong-value" };
-            Err(Violation { sig: format!("c05:tree:{}:{}", op_sig(&c.e), kind), what: format!("expr `{}`: {}", render_expr(&c.e, Style::CANON), why), replay: chk.to_json() })
+            return Err(Violation { sig: format!("c05:tree:{}:{}", op_sig(&c.e), kind), what: format!("expr `{}`: {}", render_expr(&c.e, Style::CANON), why), replay: chk.to_json() });
         }
     }
+    // every eighth tree also goes through a macro: the operands of its root are the arguments, the
+    // root operator stands in the body — the value (or the failure) must be the same
+    if ev.evaluations % 8 == 3 {
+        let (body, args): (E, Vec<E>) = match &c.e {
+            // (an atomic left operand stays in the body half of the time: literals of every kind occur in bodies)
+            E::Bin(op, a, b) if a.is_atom() && ev.evaluations % 16 == 11 => (E::Bin(*op, a.clone(), Box::new(E::Arg(0))), vec![(**b).clone()]),
+            E::Bin(op, a, b) => (E::Bin(*op, Box::new(E::Arg(0)), Box::new(E::Arg(1))), vec![(**a).clone(), (**b).clone()]),
+            E::Un(op, a) => (E::Un(*op, Box::new(E::Arg(0))), vec![(**a).clone()]),
+            other => (E::Arg(0), vec![other.clone()]),
+        };
+        let mut prog2: Vec<Ln> = vec![];
+        for l in prog.iter() {
+            if matches!(&l.st, Some(St::Data(DKind::Dq, _))) {
+                prog2.push(Ln::st(St::MacroDef("c05_eval".into(), vec![Ln::st(St::Data(DKind::Dq, vec![DItem::Ex(body.clone())]))])));
+                prog2.push(Ln::st(St::Call("C05_Eval".into(), args.iter().map(|a| Opnd::Ex(a.clone())).collect())));
+            } else {
+                prog2.push(l.clone());
+            }
+        }
+        let text2 = render(&prog2, c.style).text;
+        ev.class("tree:through-macro");
+        let chk2 = match &exp {
+            Expect::Ok(img) => Check::image_code(text2.clone(), img.code.clone()),
+            Expect::Fail { .. } => Check::MustFail { src: text2.clone(), token: None },
+            Expect::Unsure(_) => Check::NoPanic { src: text2.clone() },
+        };
+        if let Err(why) = chk2.eval() {
+            let kind = if why.contains("anic") { "panic" } else if matches!(exp, Expect::Fail { .. }) { "accepted" } else if why.contains("Err(") { "rejected" } else { "wrong-value" };
+            return Err(Violation { sig: format!("c05:tree-through-macro:{}:{}", op_sig(&c.e), kind), what: format!("expr `{}` with its root operator in a macro body and the operands as arguments: {}", render_expr(&c.e, Style::CANON), why), replay: chk2.to_json() });
+        }
+    }
+    Ok(())
 }
 
 pub fn run(ctx: &Ctx) -> Result<Ev, String> {
@@ -219,5 +251,5 @@ pub fn run(ctx: &Ctx) -> Result<Ev, String> {
 }
 
 pub fn rule() -> String {
-    "grid: each of the 18 binary operators × 30×30 boundary operands (0, ±1, ±2, 2^k, 2^k±1, i64 min/max, shift counts around 63/64), 3 unary operators (alone and in front of a tighter/looser binary operator) and 8 functions × 30, every literal spelling of boundary values, every printable character literal; trees: proptest expression trees (depth ≤ 5) over literals, .equ symbols defined before/after the use and labels, rendered with minimal parentheses under a generated style (radix, spacing, function-name case). Non-trivial = every grid point, plus trees whose minimal rendering omits at least one parenthesis pair that full parenthesisation would contain and that mix precedence levels / have a same-level right-nested pair / a unary operand; distinct = distinct program text".into()
+    "grid: each of the 18 binary operators × 30×30 boundary operands (0, ±1, ±2, 2^k, 2^k±1, i64 min/max, shift counts around 63/64), 3 unary operators (alone and in front of a tighter/looser binary operator) and 8 functions × 30, every literal spelling of boundary values, every printable character literal; trees: proptest expression trees (depth ≤ 5) over literals, .equ symbols defined before/after the use and labels, rendered with minimal parentheses under a generated style (radix, spacing, function-name case); every eighth tree additionally with its root operator in a macro body and the root's operands passed as arguments. Non-trivial = every grid point, plus trees whose minimal rendering omits at least one parenthesis pair that full parenthesisation would contain and that mix precedence levels / have a same-level right-nested pair / a unary operand; distinct = distinct program text".into()
 }
